@@ -230,6 +230,28 @@ class C02(Check):
                     if got_set != want_node.expand():
                         out.fail("C02.lenset", "%s (built through the public constructors): bit length set %s, Specification %s" % (real_t, sorted(got_set)[:12], sorted(want_node.expand())[:12]), "api-nested-array")
                     out.stats["api_nested_arrays"] += 1
+            # ... and arrays of arrays of COMPOSITES, as a field that follows a field which does not end on a byte boundary
+            from pathlib import Path as _P
+            comp_keys = [k0 for k0, t0 in node.types.items() if not isinstance(t0, pydsdl.ServiceType)][:2]
+            for ci, k0 in enumerate(comp_keys):
+                creal, cnode = node.types[k0], res.sec(k0, 0).node()
+                n1, n2 = 1 + (len(k0) + ci) % 3, 1 + (len(k0) // 2 + ci) % 3
+                inner_kinds = ((pydsdl.FixedLengthArrayType(creal, n1), B2.Rep(cnode, n1)), (pydsdl.VariableLengthArrayType(creal, n1), B2.Cat(B2.Leaf({T.prefix_width(n1)}), B2.Rng(cnode, n1))))
+                for ireal, inode in inner_kinds:
+                    for oreal, onode in ((pydsdl.FixedLengthArrayType(ireal, n2), B2.Rep(inode, n2)), (pydsdl.VariableLengthArrayType(ireal, n2), B2.Cat(B2.Leaf({T.prefix_width(n2)}), B2.Rng(inode, n2)))):
+                        out.stats["api_nested_arrays_of_composites"] += 1
+                        if oreal.alignment_requirement != 8 or ireal.alignment_requirement != 8:
+                            out.fail("C02.align", "%s (built through the public constructors): alignment requirement %d / inner %d, an array is aligned like its element (8 for a composite)" % (oreal, oreal.alignment_requirement, ireal.alignment_requirement), "api-nested-array-alignment")
+                        if onode.work() > 3000:
+                            continue
+                        u7 = pydsdl.UnsignedIntegerType(7, pydsdl.PrimitiveType.CastMode.TRUNCATED)
+                        host = pydsdl.StructureType(name="api_ns.Host", version=pydsdl.Version(1, 0), attributes=[pydsdl.Field(u7, "a"), pydsdl.Field(oreal, "b"), pydsdl.Field(pydsdl.BooleanType(), "c")],
+                                                    deprecated=creal.deprecated, fixed_port_id=None, source_file_path=_P("api_ns") / "Host.1.0.dsdl", has_parent_service=False)
+                        want_host = B2.Pad(B2.Cat(B2.Cat(B2.Pad(B2.Leaf({7}), 8), onode), B2.Leaf({1})), 8)
+                        m.bls("%s as a field after uint7 (built through the public constructors)" % oreal, want_host, host.bit_length_set)
+                        offs = {f.name: o for f, o in host.iterate_fields_with_offsets()}
+                        if set(offs["b"]) != {8}:
+                            out.fail("C02.align", "%s as a field after uint7: starts at %s, must start at 8" % (oreal, sorted(offs["b"])[:4]), "api-nested-array-offset")
             for _once in [0]:
                 pass
             for b in m.bad[:5]:
